@@ -90,7 +90,14 @@ def gen_action(rng, T, v, bias_valid=0.75, types=None):
     if t == "FindServices":
         a["tgt"] = pick(sorted(set(hosts) | set(reach)), any_ip)
     elif t == "FindData":
-        a["tgt"] = pick(ctrl, any_ip)
+        c = rng.random()
+        interesting = sorted(set(T["blocks"]) | {i for i in all_ips if T["data"].get(T["ip2host"][i])})
+        if c < 0.4 or not reach:
+            a["tgt"] = pick(ctrl, any_ip)
+        elif c < 0.7 and interesting:
+            a["tgt"] = rng.choice(interesting)          # hosts with blocks or data, controlled or not
+        else:
+            a["tgt"] = rng.choice(reach)                # reachable, controlled or not
     elif t == "ExploitService":
         cands = [(h, s) for h, ss in sorted(v["svcs"].items()) for s in sorted(ss)]
         if cands and ok:
